@@ -3,7 +3,8 @@ from .common import *
 def run(tier):
     r = Run('C11', tier)
     if tier == 'quick':
-        lens = [0, 1, 7, 8, 9, 10, 30, 47, 48, 73, 74, 75, 90, 106, 138, 177, 240]
+        # 103/104/111/112: hashed region (from offset 48) ends 55, 56, 63, 0 bytes into a block - the padding thresholds of all three hashes
+        lens = [0, 1, 7, 8, 9, 10, 30, 47, 48, 73, 74, 75, 90, 103, 104, 106, 111, 112, 138, 177, 240]
     else:
         lens = list(range(0, 161)) + list(range(170, 250, 5))
     gate_obligations(r, tier, lens, threads=(1,) if tier == 'quick' else (1, 2))
